@@ -35,8 +35,66 @@ pub enum Tok {
     Comma,
     HashHash,
     Id(String),
+    /// a decimal integer literal in its canonical spelling (no leading zero, no suffix, at most 18 digits)
     Int(String),
     P(String),
+    /// any other single token, by its SOURCE SPELLING: integer literals in other spellings (`0x10`, `007`, `1u`, `2UL`),
+    /// float literals (`1.`, `.5`, `1e3`, `1.0f`), keywords, other operators (`/`, `&&`, `.`), string literals.  What
+    /// the spelling denotes is asked of the real lexer (C10's subject, used as given): `canon_single`
+    Raw(String),
+}
+
+thread_local! {
+    static CANON: std::cell::RefCell<std::collections::HashMap<String, Option<String>>> = Default::default();
+}
+
+/// the observation form (`spell_real`) of the one token the real lexer reads from this spelling, `None` if the lexer
+/// rejects the text or reads another number of tokens, or the token is white space / a line end / `#` / `##`
+fn canon_single(s: &str) -> Option<String> {
+    if let Some(r) = CANON.with(|c| c.borrow().get(s).cloned()) {
+        return r;
+    }
+    let r = match guard(|| rssl_preprocess::verif::lex(s, rssl::text::SourceLocation::first(), false)) {
+        Ok(Ok(toks)) if toks.len() == 1 => match &toks[0].0 {
+            Token::Whitespace | Token::Comment | Token::Endline | Token::PhysicalEndline | Token::Hash | Token::HashHash
+            | Token::Eof | Token::LeftAngleBracket(_) | Token::RightAngleBracket(_) => None,
+            t => Some(spell_real(t)),
+        },
+        _ => None,
+    };
+    CANON.with(|c| c.borrow_mut().insert(s.to_string(), r.clone()));
+    r
+}
+
+fn is_ident_shaped(s: &str) -> bool {
+    let b = s.as_bytes();
+    !b.is_empty() && (b[0].is_ascii_alphabetic() || b[0] == b'_') && b.iter().all(|c| c.is_ascii_alphanumeric() || *c == b'_')
+}
+
+fn is_canonical_decimal(s: &str) -> bool {
+    let b = s.as_bytes();
+    !b.is_empty() && b.len() <= 18 && b.iter().all(|c| c.is_ascii_digit()) && !(b.len() > 1 && b[0] == b'0')
+}
+
+/// a C preprocessing number (C11 6.4.8): what a paste may produce in C without being a token of this language
+fn is_pp_number(s: &str) -> bool {
+    let b = s.as_bytes();
+    let start = if !b.is_empty() && b[0] == b'.' { 1 } else { 0 };
+    if b.len() <= start || !b[start].is_ascii_digit() {
+        return false;
+    }
+    let mut i = start;
+    while i < b.len() {
+        let c = b[i];
+        if (c == b'+' || c == b'-') && i > 0 && matches!(b[i - 1], b'e' | b'E' | b'p' | b'P') {
+            i += 1;
+        } else if c.is_ascii_alphanumeric() || c == b'_' || c == b'.' {
+            i += 1;
+        } else {
+            return false;
+        }
+    }
+    true
 }
 
 const PUNCT: &[&str] = &["+", "-", "*", ";", "=", "{", "}"];
@@ -51,12 +109,17 @@ fn parse_tok(s: &str) -> Option<Tok> {
         "," => Tok::Comma,
         "##" => Tok::HashHash,
         _ if PUNCT.contains(&s) => Tok::P(s.to_string()),
-        _ if !b.is_empty() && b.iter().all(|c| c.is_ascii_digit()) => Tok::Int(s.to_string()),
+        _ if is_canonical_decimal(s) => Tok::Int(s.to_string()),
+        // an identifier-shaped word that the lexer reads as something else is a keyword: a token of another kind
+        _ if is_ident_shaped(s) && canon_single(s).as_deref() == Some(s) => Tok::Id(s.to_string()),
+        // the request syntax uses blank, tab, `|`, `~`, `:=` itself; `#` is outside the property's subset; `<` `>` lex
+        // differently by what follows them
         _ if !b.is_empty()
-            && (b[0].is_ascii_alphabetic() || b[0] == b'_')
-            && b.iter().all(|c| c.is_ascii_alphanumeric() || *c == b'_') =>
+            && s != ":="
+            && !b.iter().any(|c| matches!(*c, b' ' | b'\t' | b'|' | b'~' | b'#' | b'<' | b'>' | b'\n' | b'\r' | b'\\'))
+            && canon_single(s).is_some() =>
         {
-            Tok::Id(s.to_string())
+            Tok::Raw(s.to_string())
         }
         _ => return None,
     })
@@ -74,7 +137,7 @@ fn enc_tok(t: &Tok) -> String {
         Tok::RParen => ")".into(),
         Tok::Comma => ",".into(),
         Tok::HashHash => "##".into(),
-        Tok::Id(s) | Tok::Int(s) | Tok::P(s) => s.clone(),
+        Tok::Id(s) | Tok::Int(s) | Tok::P(s) | Tok::Raw(s) => s.clone(),
     }
 }
 
@@ -298,13 +361,10 @@ fn spell_real(t: &Token) -> String {
 
 /// does the rendered text of a token list lex (with the real lexer) to exactly these tokens?
 fn lex_faithful(ts: &[Tok]) -> bool {
-    // integers are compared by value, so leading zeros (octal) are not faithful
+    // `Tok::Int` is the canonical decimal spelling (compared by value); every other spelling of a number is `Tok::Raw`
     for t in ts {
         if let Tok::Int(s) = t {
-            if s.len() > 1 && s.starts_with('0') {
-                return false;
-            }
-            if s.len() > 18 {
+            if !is_canonical_decimal(s) {
                 return false;
             }
         }
@@ -312,11 +372,18 @@ fn lex_faithful(ts: &[Tok]) -> bool {
     let text = spell_all(ts);
     match rssl_preprocess::verif::lex(&text, rssl::text::SourceLocation::first(), false) {
         Ok(real) => {
+            if std::env::var("C12_DEBUG_LEX").is_ok() {
+                eprintln!("LEX {:?} -> {:?}", text, real.iter().map(|r| spell_real(&r.0)).collect::<Vec<_>>());
+            }
             real.len() == ts.len()
                 && real
                     .iter()
                     .zip(ts.iter())
-                    .all(|(r, t)| tok_of_real(&r.0).as_ref() == Some(t))
+                    .all(|(r, t)| match t {
+                        // the token read in place is the token the spelling denotes on its own
+                        Tok::Raw(s) => canon_single(s) == Some(spell_real(&r.0)),
+                        _ => tok_of_real(&r.0).as_ref() == Some(t),
+                    })
         }
         Err(_) => false,
     }
@@ -478,6 +545,8 @@ enum RK {
     Id(String),
     Int(String),
     P(String),
+    /// any other token, by its source spelling (the reference works on text: a number keeps the spelling it was written with)
+    Other(String),
     LParen,
     RParen,
     Comma,
@@ -630,7 +699,7 @@ struct Reference<'a> {
 
 fn rk_spelling(k: &RK) -> String {
     match k {
-        RK::Id(s) | RK::Int(s) | RK::P(s) => s.clone(),
+        RK::Id(s) | RK::Int(s) | RK::P(s) | RK::Other(s) => s.clone(),
         RK::LParen => "(".into(),
         RK::RParen => ")".into(),
         RK::Comma => ",".into(),
@@ -666,6 +735,7 @@ impl<'a> Reference<'a> {
             Tok::Id(s) => RK::Id(s.clone()),
             Tok::Int(s) => RK::Int(s.clone()),
             Tok::P(s) => RK::P(s.clone()),
+            Tok::Raw(s) => RK::Other(s.clone()),
         })
     }
 
@@ -1054,33 +1124,35 @@ impl<'a> Reference<'a> {
         let k = match (&a.k, &b.k) {
             (RK::Placemarker, k) | (k, RK::Placemarker) => k.clone(),
             (RK::Id(x), RK::Id(y)) | (RK::Id(x), RK::Int(y)) => RK::Id(format!("{}{}", x, y)),
-            (RK::Int(x), RK::Int(y)) => {
-                let s = format!("{}{}", x, y);
-                if s.len() > 1 && s.starts_with('0') {
-                    // an octal literal: tokens are compared by value
-                    match u64::from_str_radix(&s, 8) {
-                        Ok(v) => RK::Int(v.to_string()),
-                        Err(_) => {
-                            self.notes.out_of_subset.insert("paste-makes-malformed-octal".into());
-                            return Err(RefErr::PasteInvalid);
-                        }
-                    }
-                } else {
-                    RK::Int(s)
-                }
-            }
-            (RK::Int(_), RK::Id(_)) => {
-                self.notes.out_of_subset.insert("paste-makes-pp-number".into());
-                return Err(RefErr::PasteInvalid);
-            }
+            (RK::Int(x), RK::Int(y)) if is_canonical_decimal(&format!("{}{}", x, y)) => RK::Int(format!("{}{}", x, y)),
             (RK::P(x), RK::P(y)) => match PUNCT_MERGE.iter().find(|(p, q, _)| p == x && q == y) {
                 Some((_, _, r)) => RK::P(r.to_string()),
                 None => return Err(RefErr::PasteInvalid),
             },
+            (x, y) if matches!(x, RK::Id(_) | RK::Int(_) | RK::P(_) | RK::Other(_))
+                && matches!(y, RK::Id(_) | RK::Int(_) | RK::P(_) | RK::Other(_)) =>
+            {
+                // C11 6.10.3.3p3: the SPELLINGS of the two tokens are joined; the result must be one token.  Which texts
+                // are one token of this language is the lexer's business (C10): asked of the real lexer
+                let s = format!("{}{}", rk_spelling(x), rk_spelling(y));
+                if is_ident_shaped(&s) {
+                    RK::Id(s)
+                } else if is_canonical_decimal(&s) {
+                    RK::Int(s)
+                } else if canon_single(&s).is_some() {
+                    RK::Other(s)
+                } else {
+                    if is_pp_number(&s) {
+                        // a valid preprocessing number in C that is no token here (`1x`, `08`, `1.2.3`)
+                        self.notes.out_of_subset.insert("paste-makes-pp-number".into());
+                    }
+                    return Err(RefErr::PasteInvalid);
+                }
+            }
             _ => return Err(RefErr::PasteInvalid),
         };
         if let RK::Id(n) = &k {
-            if KEYWORDS.contains(&n.as_str()) {
+            if KEYWORDS.contains(&n.as_str()) || canon_single(n).as_deref() != Some(n.as_str()) {
                 self.notes.out_of_subset.insert("paste-makes-keyword".into());
             }
         }
@@ -1110,7 +1182,12 @@ fn ref_flush(r: &mut Reference, st: &mut RefRun) -> Result<(), RefErr> {
     let exp = r.expand(pending)?;
     for t in exp {
         if t.k != RK::Nl {
-            st.out.push(rk_spelling(&t.k));
+            // the real output is observed as kinds and values: a spelling that is not its own observation form (a
+            // number in another base or with a suffix, a float, a keyword) is put into that form by the lexer
+            st.out.push(match &t.k {
+                RK::Other(s) => canon_single(s).unwrap_or_else(|| format!("!not-a-token({})", s)),
+                k => rk_spelling(k),
+            });
         }
     }
     Ok(())
@@ -1733,6 +1810,190 @@ fn generate(rng: &mut Rng, hist: &mut Hist) -> Vec<Program> {
         variants.push(Program { api, files: fs, strict: false });
     }
     variants
+}
+
+// ------------------------------------------------------------------------------------------------
+// generator family: `##` operands of every token kind and spelling
+// ------------------------------------------------------------------------------------------------
+//
+// `##` joins the SOURCE SPELLINGS of its operands (`unlex` of each in preprocess.rs; C11 6.10.3.3p3).  The main generator
+// pastes identifiers and canonical decimals only, on which a spelling and a rendering of the value coincide.  Here the
+// operands are integer literals in hex / octal / with leading zeros / with suffixes, float literals in every spelling,
+// keywords, operators, string literals, identifiers that end in digits or look like suffixes and exponents; they come out
+// of arguments, out of the replacement list, or are empty; results are identifiers, numbers, operators and invalid pastes.
+
+const SPELL_INTS: &[&str] = &[
+    "0x10", "0x1", "0xA1", "0x0", "0X1f", "007", "010", "00", "0", "017", "1u", "2U", "3l", "4L", "5ul", "6UL", "7lu", "8Lu",
+    "0x1u", "017u", "0x7L", "10", "42", "1", "9", "100",
+];
+const SPELL_FLOATS: &[&str] = &["1.", ".5", "1e3", "1.0f", "1.0h", "1.0L", "2E-7", "1e+11", "0.5", "3.25", "1.f", ".5h", "7e2f"];
+const SPELL_KEYWORDS: &[&str] = &["if", "else", "for", "while", "true", "false", "struct", "const", "return", "in", "out", "do"];
+const SPELL_PUNCT: &[&str] = &[
+    "+", "-", "*", "=", ";", "{", "}", "/", "%", "&", "&&", "!", "!=", ".", "?", ":", "[", "]", "^", "+=", "==", "++", "--", "-=", "*=",
+    "/=", "::",
+];
+const SPELL_STRINGS: &[&str] = &["\"abc\"", "\"\"", "\"0x1\""];
+const SPELL_IDS: &[&str] = &[
+    "v", "slot_", "x1", "tex2", "_", "a0", "e3", "u", "f", "x10", "L", "h", "ul", "x", "E", "P", "Q", "_7", "reg0", "i", "e",
+];
+
+fn spelled_operand(rng: &mut Rng, hist: &mut Hist) -> Option<Tok> {
+    let (kind, pool): (&str, &[&str]) = match rng.below(12) {
+        0..=3 => ("int", SPELL_INTS),
+        4 | 5 => ("float", SPELL_FLOATS),
+        6 => ("keyword", SPELL_KEYWORDS),
+        7 | 8 => ("operator", SPELL_PUNCT),
+        9 => ("string", SPELL_STRINGS),
+        _ => ("identifier", SPELL_IDS),
+    };
+    let s = *rng.pick(pool);
+    let t = parse_tok(s)?;
+    hist.add(&format!("paste-operand:{}", kind));
+    if matches!(t, Tok::Raw(_)) {
+        hist.add("paste-operand:spelling-differs-from-value-or-kind");
+    }
+    Some(t)
+}
+
+fn generate_paste_spellings(rng: &mut Rng, hist: &mut Hist) -> Program {
+    let ws = |rng: &mut Rng, v: &mut Vec<Tok>| {
+        if rng.chance(1, 2) {
+            v.push(if rng.chance(1, 6) { Tok::Cmt } else { Tok::Ws });
+        }
+    };
+    let id = |s: &str| Tok::Id(s.to_string());
+    let mut lines: Vec<Line> = Vec::new();
+    let mut api: Vec<(Vec<Tok>, Vec<Tok>)> = Vec::new();
+    // CAT(X,Y) X ## Y: both operands out of arguments
+    let mut body = vec![id("X")];
+    ws(rng, &mut body);
+    body.push(Tok::HashHash);
+    ws(rng, &mut body);
+    body.push(id("Y"));
+    let head = vec![id("CAT"), Tok::LParen, id("X"), Tok::Comma, id("Y"), Tok::RParen];
+    if rng.chance(1, 5) {
+        api.push((head, body));
+        hist.add("paste-family:CAT-in-api-list");
+    } else {
+        let mut l = vec![Tok::Ws];
+        l.extend(head);
+        l.push(Tok::Ws);
+        l.extend(body);
+        lines.push(Line::Define(l));
+    }
+    // C3(X,Y,Z) X ## Y ## Z, ID(X) X
+    lines.push(Line::Define(vec![
+        Tok::Ws, id("C3"), Tok::LParen, id("X"), Tok::Comma, id("Y"), Tok::Comma, id("Z"), Tok::RParen, Tok::Ws, id("X"), Tok::Ws,
+        Tok::HashHash, Tok::Ws, id("Y"), Tok::HashHash, id("Z"),
+    ]));
+    lines.push(Line::Define(vec![Tok::Ws, id("ID"), Tok::LParen, id("X"), Tok::RParen, Tok::Ws, id("X")]));
+    let mut sites: Vec<Vec<Tok>> = Vec::new();
+    let n = 2 + rng.below(4);
+    for k in 0..n {
+        let mut arg = |rng: &mut Rng, hist: &mut Hist, v: &mut Vec<Tok>| {
+            if rng.chance(1, 14) {
+                hist.add("paste-family:empty-argument");
+                return;
+            }
+            if rng.chance(1, 4) {
+                v.push(Tok::Ws);
+            }
+            if let Some(t) = spelled_operand(rng, hist) {
+                v.push(t);
+            }
+            if rng.chance(1, 6) {
+                v.push(Tok::Ws);
+            }
+        };
+        let mut t = Vec::new();
+        match rng.below(10) {
+            0..=3 => {
+                hist.add("paste-family:both-operands-from-arguments");
+                t.extend([id("CAT"), Tok::LParen]);
+                arg(rng, hist, &mut t);
+                t.push(Tok::Comma);
+                arg(rng, hist, &mut t);
+                t.push(Tok::RParen);
+            }
+            4 | 5 => {
+                // one operand out of the replacement list
+                let Some(lit) = spelled_operand(rng, hist) else { continue };
+                let name = format!("M{}", k);
+                let left = rng.chance(1, 2);
+                hist.add(if left { "paste-family:left-operand-from-body" } else { "paste-family:right-operand-from-body" });
+                let mut d = vec![Tok::Ws, id(&name), Tok::LParen, id("X"), Tok::RParen, Tok::Ws];
+                if left {
+                    d.push(lit);
+                    ws(rng, &mut d);
+                    d.push(Tok::HashHash);
+                    ws(rng, &mut d);
+                    d.push(id("X"));
+                } else {
+                    d.push(id("X"));
+                    ws(rng, &mut d);
+                    d.push(Tok::HashHash);
+                    ws(rng, &mut d);
+                    d.push(lit);
+                }
+                lines.push(Line::Define(d));
+                t.extend([id(&name), Tok::LParen]);
+                arg(rng, hist, &mut t);
+                t.push(Tok::RParen);
+            }
+            6 => {
+                // both operands out of the replacement list of an object-like macro
+                let (Some(a), Some(b)) = (spelled_operand(rng, hist), spelled_operand(rng, hist)) else { continue };
+                hist.add("paste-family:both-operands-from-body");
+                let name = format!("B{}", k);
+                let mut d = vec![Tok::Ws, id(&name), Tok::Ws, a];
+                ws(rng, &mut d);
+                d.push(Tok::HashHash);
+                ws(rng, &mut d);
+                d.push(b);
+                lines.push(Line::Define(d));
+                t.push(id(&name));
+            }
+            7 => {
+                hist.add("paste-family:chain-of-three");
+                t.extend([id("C3"), Tok::LParen]);
+                arg(rng, hist, &mut t);
+                t.push(Tok::Comma);
+                arg(rng, hist, &mut t);
+                t.push(Tok::Comma);
+                arg(rng, hist, &mut t);
+                t.push(Tok::RParen);
+            }
+            8 => {
+                // the result of a paste handed on as an operand
+                hist.add("paste-family:nested");
+                t.extend([id("CAT"), Tok::LParen, id("CAT"), Tok::LParen]);
+                arg(rng, hist, &mut t);
+                t.push(Tok::Comma);
+                arg(rng, hist, &mut t);
+                t.extend([Tok::RParen, Tok::Comma]);
+                arg(rng, hist, &mut t);
+                t.push(Tok::RParen);
+            }
+            _ => {
+                // not pasted at all: the spelling passes through an argument
+                hist.add("paste-family:operand-passed-through");
+                t.extend([id("ID"), Tok::LParen]);
+                arg(rng, hist, &mut t);
+                t.push(Tok::RParen);
+            }
+        }
+        t.push(Tok::Ws);
+        t.push(Tok::P(";".into()));
+        sites.push(t);
+    }
+    for t in sites {
+        lines.push(Line::Text(t));
+    }
+    Program {
+        api,
+        files: vec![File { name: "main".into(), real: "main".into(), lines }],
+        strict: false,
+    }
 }
 
 // ------------------------------------------------------------------------------------------------
@@ -2632,6 +2893,10 @@ pub fn run(args: &Args, out: &mut Out) {
             continue;
         }
         all.push(p);
+    }
+    // `##` operands of every token kind and spelling
+    for _ in 0..(n / 5).max(50) {
+        all.push(generate_paste_spellings(&mut rng, &mut hist));
     }
     let programs = all.len() as u64;
     run_batch(&all, out, &mut hist);
